@@ -104,6 +104,9 @@ def drive(ctx, drv, cfg, histfile, al, seed, scratch, random=0, rlen=0, tag="g")
     skip = 0
     tot_h = tot_e = hangs = unexamined = 0
     found = []
+    import time
+    t0 = time.time()
+    t_drv = 0.0
     for attempt in range(6):
         out = ctx.path("tr_%s_%s_%d.ndjson" % (tag, safe, attempt))
         argv = [drv, "-cfg", cfg, "-out", out, "-seed", str(seed), "-scratch", scratch, "-skip", str(skip)]
@@ -111,7 +114,9 @@ def drive(ctx, drv, cfg, histfile, al, seed, scratch, random=0, rlen=0, tag="g")
             argv += ["-hist", histfile]
         if random:
             argv += ["-random", str(random), "-rlen", str(rlen)]
+        t1 = time.time()
         rc, so, se = ctx.run(argv, timeout=900, ok_codes=None)
+        t_drv += time.time() - t1
         if rc == 0:
             m = re.search(r"histories=(\d+) events=(\d+) hangs=(\d+) unexamined=(\d+)", so)
             if not m:
@@ -151,6 +156,8 @@ def drive(ctx, drv, cfg, histfile, al, seed, scratch, random=0, rlen=0, tag="g")
         skip += max(started, 1)
     else:
         raise vlib.MachineryError("driver died 6 times on %s" % cfg)
+    ctx.log("G/T %-32s %5d histories %7d events  driver %.1fs  validation %.1fs  discrepancies %d" % (
+        cfg, tot_h, tot_e, t_drv, time.time() - t0 - t_drv, len(found)))
     return tot_h, tot_e, hangs, unexamined, found
 
 
